@@ -108,12 +108,19 @@ def build(tier, seed, exclude):
         l2 += S.trees(["a", "b", "c"]) + [["a", ("b", ["c", "d"])], (("a", "b"), ("c", "d")), [["a", "b"], ["c", "d"]]]
     for t in l2:
         fs = sorted(set(S.fields(t)))
-        params = ", ".join(f"n{f}: int" for f in fs) + ", dup: bool, tok: int"
-        pre = [" and ".join(f"0 <= n{f} <= 2" for f in fs) + " and 0 <= tok < 4"]
+        params = ", ".join(f"n{f}: int" for f in fs) + ", dup: bool"
+        pre = [" and ".join(f"0 <= n{f} <= 2" for f in fs)]
         g.cond("h_l2_" + S.tree_name(t), params, pre, f"""
-            err = SR.l2_split({t!r}, T.real({{{", ".join(f'"{f}": n{f}' for f in fs)}}}), T.real(dup), 7, tok=T.real(tok))
+            err = SR.l2_split({t!r}, T.real({{{", ".join(f'"{f}": n{f}' for f in fs)}}}), T.real(dup), 7)
             return T.fail(err) if err else True
         """, timeout=(60 if quick else 300))
+        if t in ("a", ["a", "b"], ("a", "b")):
+            for tok in (1, 2, 3):         # element kinds: None / falsy / container-valued elements
+                pre2 = [" and ".join(f"1 <= n{f} <= 2" for f in fs)]
+                g.cond(f"h_l2tok{tok}_" + S.tree_name(t), ", ".join(f"n{f}: int" for f in fs), pre2, f"""
+                    err = SR.l2_split({t!r}, T.real({{{", ".join(f'"{f}": n{f}' for f in fs)}}}), False, 7, tok={tok})
+                    return T.fail(err) if err else True
+                """, timeout=(60 if quick else 300))
     g.cond("twin_l2", "na: int", ["0 <= na <= 1"], """
         err = SR.l2_split("a", {"a": na}, False, 7)
         return err is not None
